@@ -63,6 +63,15 @@ CLAIMED = {
     },
 }
 
+CLAIMED["C01"] = _entry(
+    "Static analysis decides, for every widget class and path, the unit discipline of sizes (no screen-column quantity reaches a rows position or vice versa: DIM inference seeded from the "
+    "widget API), container-kind misuse, that Text's reported rows and rendered lines come from the same layout with one canvas row per layout line, and that every pad-to-fill site pads the "
+    "canvas by target minus its own rows()/cols(). These are necessary conditions of exact-size rendering; that composed canvases have the requested size for all trees, sizes and texts is a "
+    "value property and is not decided (level 'other').",
+    "DESIGN.md section 3, C01; engines E2, E12, E6",
+    "static analysis: cols/rows unit inference, value-kind misuse, def-use expansion + linear canonical form of pad amounts, CFG per-iteration must-pass",
+)
+
 _PENDING = "check not built yet in this session (planned per DESIGN.md section 3); listed here until its static rules exist and pass on the pinned tree"
 NOT_APPLICABLE = {pid: _PENDING for pid in [f"C{i:02d}" for i in range(1, 21)] if pid not in CLAIMED and pid != "C07"}
 NOT_APPLICABLE["C07"] = (
